@@ -122,11 +122,14 @@ def upstream(rng, n, alt_det, hostile=True):
             # out-of-range decays whose geometry is degenerate (distance to the detector 0, infinite or
             # undefined): they are outside [0, 10] km like any other and must give an exactly zero field
             beta = np.array(beta, copy=True)
-            alt[15] = alt_det  # decays at the detector's own altitude
+            # (for a detector inside the decay range a decay at the detector's own altitude is a decay *at the
+            #  detector*: distance 0, a genuine singularity of the 1/d field, not generated)
+            at_det = alt_det if alt_det > 10.0 else 10.0 + alt_det
+            alt[15] = at_det  # decays at the detector's own altitude
             alt[16] = np.inf
             alt[17], beta[17] = -1.0, math.radians(0.5)  # below ground on a grazing track
             alt[18] = 1e300
-            alt[19], l[19] = alt_det, float((L * np.cos(theta))[19])
+            alt[19], l[19] = at_det, float((L * np.cos(theta))[19])
             alt[20] = -np.inf
         # viewed exactly along the shower axis: the parametrised field is certainly non-zero there
         theta = np.array(theta, copy=True)
@@ -412,7 +415,7 @@ def run(ctx):
     allb = [(lo, hi) for lo in range(0, 1650, 10) for hi in range(lo + 10, 1651, 10)]
     nb = 12
     P = [{"kind": "bands", "bands": allb[i::nb]} for i in range(nb)]
-    dets = [33.0, 89.0, 91.0, 525.0, 36000.0]
+    dets = [33.0, 89.0, 91.0, 525.0, 36000.0, 5.0, 8.0]  # incl. detectors inside the [0, 10] km decay range (closest approach can be in range)
     variants = [(10.0, (30.0, 300.0)), (7.0, (30.0, 300.0)), (50.0, (300.0, 1000.0)), (10.0, (50.0, 200.0)), (-1.0, (30.0, 300.0)), (None, (30.0, 80.0)), (150.0, (200.0, 1200.0))]
     for d in dets:
         P.append({"kind": "rel", "dets": [d], "variants": variants if T else (variants[::2] if d != 525.0 else variants), "n": 300 if not T else 2500})
